@@ -138,8 +138,8 @@ mut('c16-base-first-region-bias', 'C16', G, "            if cur_prob >= prob_tar
 # ---- C17 / C20
 mut('revert-F-C17', 'C17', 'lib_princeling/wordlist_generation.py', "limit = max_size - num_generated_guesses", "limit = None")
 mut('c17-while-le', 'C17', 'lib_princeling/wordlist_generation.py', "while max_size is None or num_generated_guesses < max_size:", "while max_size is None or num_generated_guesses <= max_size:")
-mut('c17-file-drops-newline', 'C17', G, "        self.output_file.write('\\n')", "        self.output_file.write('\\n') if guess else None", benign=True)
-mut('c17-file-encoding-errors', 'C17', G, "        self.output_file.write(guess)", "        self.output_file.write(guess.strip())")
+mut('c17-file-drops-newline', 'C17', G, "            self.output_file.write(guess + '\\n')", "            self.output_file.write(guess + '\\n') if guess else None", benign=True)
+mut('c17-file-encoding-errors', 'C17', G, "            self.output_file.write(guess + '\\n')", "            self.output_file.write(guess.strip() + '\\n')")
 ER = 'edit_rules.py'
 mut('c20-year-as-one', 'C20', ER, "                total_length += 4", "                total_length += 1")
 mut('c20-min-exclusive', 'C20', ER, "        elif total_length >= min_length and total_length + extra_length <= max_length:", "        elif total_length > min_length and total_length + extra_length <= max_length:")
@@ -175,5 +175,6 @@ mut('benign-own-random-generator', 'C16', G, "import random", "import random\r\n
           (G, "            prob_target = random.random() * total_prob", "            prob_target = RNG.random() * total_prob", 0),
           ('lib_guesser/honeyword_session.py', "            random.seed(self.random_seed)", "            random.seed(self.random_seed); __import__('lib_guesser.pcfg_grammar', fromlist=['RNG']).RNG.seed(self.random_seed)", 0)])
 mut('benign-c20-atomic-write', 'C20', ER, "    with open(grammar_file, 'w') as grammar_fp:\n        print('Done editing, writing back results.')\n        for line in grammar:\n            grammar_fp.write(line)\n", "    with open(grammar_file + '.tmp', 'w') as grammar_fp:\n        print('Done editing, writing back results.')\n        for line in grammar:\n            grammar_fp.write(line)\n    os.replace(grammar_file + '.tmp', grammar_file)\n", benign=True, desc='grammar.txt written through a scratch file and renamed into place: no other file of the ruleset is touched')
+mut('revert-F-C17b', 'C17', G, "        try:\r\n            self.output_file.write(guess + '\\n')\r\n        except UnicodeEncodeError:\r\n            pass", "        self.output_file.write(guess)\r\n        self.output_file.write('\\n')")
 json.dump(M, open(os.path.join(os.path.dirname(os.path.abspath(__file__)), 'mutants.json'), 'w'), indent=1)
 print(len(M), 'mutants')
